@@ -24,6 +24,7 @@ LEVEL = "proof"
 EXTRA_TARGETS = ["model/LocksTie.vo"]
 TERM = 0
 SHARD = 24
+HANG_SEEN = False
 
 HEADER = ("From Coq Require Import List Arith Bool ZArith.\nImport ListNotations.\n"
           "From TI Require Import lib.Sched model.Locks model.LocksTie.\nOpen Scope nat_scope.\n")
@@ -107,11 +108,16 @@ def case_term(c, r):
 
 
 def evaluate(cases, tag="c14", want_racy=False):
+    global HANG_SEEN
+    if HANG_SEEN:  # the code under test blocks for real somewhere: do not wait long again
+        cases = [dict(c, grant_timeout=2) for c in cases]
     impl = core.run_impl_parallel("impl_c14.py", cases)
     errors = []
     for i, r in enumerate(impl):
         if r.get("error"):
             errors.append(f"case {i}: driver: {r['error']}")
+            if "did not park" in r["error"]:
+                HANG_SEEN = True
     good = [i for i, r in enumerate(impl) if "log" in r]
     terms = [case_term(cases[i], impl[i]) for i in good]
     # one evaluation: bits 0-1 = check (1 differs from the model, 2 contradicts the
@@ -127,20 +133,28 @@ def evaluate(cases, tag="c14", want_racy=False):
     return codes, errors, impl, racy
 
 
-def shrink(case):
+def shrink(case, budget_s):
+    """delta debugging on the generated part of the schedule (chunks, then single picks); every
+    round is one parallel evaluation; bounded by a time budget"""
+    import time
+
+    deadline = time.time() + budget_s
     cur = case
-    for _ in range(30):
-        cands = []
+    n = max(1, len(cur["sched"]) // 2)
+    while time.time() < deadline:
         s = cur["sched"]
-        for k in range(len(s)):
-            cands.append(dict(cur, sched=s[:k] + s[k + 1:]))
-        if not cands:
+        if not s:
             break
+        cands = [dict(cur, sched=s[:k] + s[k + n:]) for k in range(0, len(s), n)]
         codes, errors, _, _ = evaluate(cands, tag="c14s")
         nxt = next((c for c, code in zip(cands, codes) if code >= 2), None)
-        if nxt is None or errors:
+        if nxt is not None:
+            cur = nxt
+            n = min(n, max(1, len(cur["sched"])))
+        elif n == 1:
             break
-        cur = nxt
+        else:
+            n = max(1, n // 2)
     return cur
 
 
@@ -352,11 +366,15 @@ def run(ctx):
         acq_threads = {t for t, e in r["log"] if e[0] == 1}
         if len(acq_threads) >= 2 and any(e[0] == 7 for _, e in r["log"]):
             distinct.add(core.sig([c["threads"], c["sched"]]))
-    for i, code in enumerate(codes):
+    order = sorted(range(len(codes)), key=lambda i: (len(cases[i]["sched"]), i))  # shortest failing schedule first
+    for i in order:
+        code = codes[i]
         if not code:
             continue
         if code >= 2:
-            small = shrink(cases[i]) if len(failures) < 2 else cases[i]
+            if len(failures) >= 3:
+                continue
+            small = shrink(cases[i], 45 if ctx.quick else 180) if not failures and not ctx.replay else cases[i]
             codes2, _, impl2, _ = evaluate([small], tag="c14r")
             failures.append({
                 "signature": core.sig([small["threads"], small["sched"]]),
